@@ -187,6 +187,20 @@ func RunC12(ctx *core.Ctx) *core.Violation {
 	} else {
 		data = genData(t, n, alphabet)
 	}
+	if alphabet == 0 && n >= 16 && t.Chance(1, 2) {
+		// a plain text with a few non-ASCII characters in it, one of them close to the end: the
+		// usual shape of real documents, and the one in which a "no multi-byte so far" shortcut
+		// would go wrong
+		for k := 1 + t.Draw(3); k > 0; k-- {
+			r := []rune{0xE9, 0x3A3, 0x20AC, 0x6F22, 0x1F600, 0x10FFFF}[t.Draw(6)]
+			at := t.Draw(n - 8)
+			if k == 1 {
+				at = n - 4 - t.Draw(5)
+			}
+			copy(data[at:], string(r))
+		}
+		ctx.Count("probe_sparse_runes")
+	}
 	if t.Chance(1, 20) {
 		// a byte-order mark is ordinary data for a byte cursor
 		data = append([]byte{0xEF, 0xBB, 0xBF}, data...)
